@@ -129,6 +129,17 @@ func c08Echo(c *caseCtx) {
 		c.violate("props-vs-apply", fmt.Sprintf("%d biases report props but %d were applied (%d of them mixing no-ops)", fired, len(d.Trace.Bias), nullMixing), M{"request": g.M})
 		return
 	}
+	// a bias that does not fire changes nothing: every stage receives exactly what the last fired stage handed on
+	for _, is := range checkChain(d.Trace) {
+		c.violate("not-fired-changed-state", is.msg, M{"request": g.M})
+		return
+	}
+	// the service path (handler of main.go) answers with the same bytes as the library path - whatever it answered before
+	if st, hb := httpInproc("POST", "/api/decide", g.body()); st != 200 || !bytes.Equal(hb, d.JSON) {
+		c.violate("http-differs-from-library", fmt.Sprintf("the HTTP handler answers %d with other bytes than the library call for the same request", st), M{"request": g.M, "http": string(hb), "library": string(d.JSON)})
+		return
+	}
+	c.count("http_path_compared", 1)
 	c.count("echo_checked", 1)
 	// (b) a disabled bias is equivalent to leaving it out
 	p := deepCopyM(g.M)
@@ -310,13 +321,13 @@ func init() {
 		id: "C08",
 		rule: "stream echo: generated bias lists (all 6 biases, 7 methods) with disabled entries (also unknown names) sprinkled in and explicit probabilities 0 / 1: response " +
 			"biases = non-disabled requests in order with name/probability echoed, p=1 fires, p=0 does not, props non-null exactly for applied biases (decorator ground " +
-			"truth), removing disabled entries leaves the bytes unchanged. Stream threshold: for a seed and an enabled position the firing pattern over p = 0,1/32,..,1 " +
+			"truth), removing disabled entries leaves the bytes unchanged, the handler of main.go (in-process gin engine) answers with the same bytes as the library. Stream threshold: for a seed and an enabled position the firing pattern over p = 0,1/32,..,1 " +
 			"must be monotone, start after 0, include 1, and its switching point must not move when the other entries are replaced and disabled entries inserted. Stream " +
 			"frequency: p in {0.1,0.25,0.5,0.75,0.9} x positions 0..3 over 6000 seeds, rate within 6 sigma. Non-trivial = every case; distinct = (stream, method, pattern / " +
 			"position / switching point / count).",
 		assumptions: []string{"cheap always-valid biases (const fatigue, reversal) are used where firing is read from props != null"},
 		streams: []*stream{
-			{name: "echo", n: tierN(14000, 300000), unit: 3500, run: c08Echo, floors: map[string]int64{"echo_checked": 8000, "disabled_equivalence_checked": 4000}},
+			{name: "echo", n: tierN(14000, 300000), unit: 3500, run: c08Echo, floors: map[string]int64{"echo_checked": 8000, "disabled_equivalence_checked": 4000, "http_path_compared": 8000}},
 			{name: "threshold", n: tierN(600, 12000), unit: 75, run: c08Threshold, floors: map[string]int64{"thresholds_checked": 500, "independence_checked": 1000}},
 			{name: "frequency", n: tierN(20, 200), unit: 2, run: c08Frequency, floors: map[string]int64{"frequency_batteries": 20}},
 		},
